@@ -30,7 +30,7 @@ ASSUMPTIONS = [
     "indices are compared exactly, utilities with rtol=1e-6/atol=1e-8",
 ]
 PROFILE = {
-    "quick": dict(examples=1000, shards=16, budget_s=80),
+    "quick": dict(examples=1600, shards=16, budget_s=80),
     "thorough": dict(examples=8000, shards=16, budget_s=1100),
 }
 
